@@ -261,6 +261,41 @@ def expand_call_literal(cx, l, depth=0):
     return out or None
 
 
+_succ_cache = {}
+
+
+def _succs(body, bi):
+    k = (id(body), bi)
+    r = _succ_cache.get(k)
+    if r is None:
+        t = body.blocks[bi]["term"]
+        r = set()
+        for key in ("target", "otherwise"):
+            v = t.get(key)
+            if isinstance(v, int):
+                r.add(v)
+        for v, tgt in t.get("targets", []) or []:
+            if isinstance(tgt, int):
+                r.add(tgt)
+        _succ_cache[k] = r
+    return r
+
+
+def _reach_avoiding(body, src, avoid):
+    """CFG blocks reachable from `src` through >= 1 edge without entering `avoid` (cleanup edges ignored)."""
+    seen = set()
+    work = [s for s in _succs(body, src) if s != avoid]
+    while work:
+        b = work.pop()
+        if b in seen:
+            continue
+        seen.add(b)
+        for s2 in _succs(body, b):
+            if s2 != avoid and s2 not in seen:
+                work.append(s2)
+    return seen
+
+
 def _clause_holds(cx, site, accept, kill=True, assume=None, depth=2, start_held=False):
     """Does the must-pass clause hold at `site`?  Locally (with kill analysis), else - for functions that
     are not part of the public API - at every in-crate call site of the enclosing function, with the
@@ -308,7 +343,49 @@ def _clause_holds(cx, site, accept, kill=True, assume=None, depth=2, start_held=
                 if k not in cache:
                     cache[k] = killed_rooted(prog.block_effects(site.fn, bi, upto), fps)
                 return cache[k]
-            ok, wit = g.guarded(site.at, ok_edge, kb, assume=assume, start_held=start_held)
+            # A literal tested on a local that was computed earlier (`let pending = self.has_pending(); for .. { if pending ..`)
+            # is only as fresh as that computation: if something on a path from the defining read to the branch can
+            # change the literal's inputs, the branch does not establish the guard.
+            stale_cache = {}
+            fnb = site.fn.body
+            an_ = prog.A(site.fn)
+
+            def stale(bi, l):
+                k = (bi, l)
+                if k in stale_cache:
+                    return stale_cache[k]
+                r = False
+                t = fnb.blocks[bi]["term"]
+                if t["k"] == "switch":
+                    pl = t["op"].get("copy") or t["op"].get("move")
+                    if pl is not None and not pl["p"]:
+                        reads = defining_reads(an_, pl["l"])
+                        fpl = prog.expr_footprint(l[1], site.fn)
+                        if reads and fpl:
+                            for rb, ri in reads:
+                                if rb == bi:
+                                    continue
+                                # blocks on a path rb -> .. -> bi that does not pass through rb again (passing rb recomputes the value)
+                                fwd = _reach_avoiding(fnb, rb, rb)
+                                for x in sorted(fwd):
+                                    if x == rb:
+                                        continue
+                                    on_path = x == bi or bi in _reach_avoiding(fnb, x, rb)
+                                    if not on_path:
+                                        continue
+                                    upto = len(fnb.blocks[x]["stmts"]) if x == bi else None
+                                    if killed_rooted(prog.block_effects(site.fn, x, upto), fpl):
+                                        r = True
+                                        break
+                                if r:
+                                    break
+                stale_cache[k] = r
+                return r
+
+            def ok_edge_fresh(lits, bi):
+                return any(acc(l) and not stale(bi, l) for l in lits)
+            ok_edge_fresh.with_block = True
+            ok, wit = g.guarded(site.at, ok_edge_fresh, kb, assume=assume, start_held=start_held)
             if not ok:
                 note = " [the guard's inputs may be overwritten between the guard and the site]"
     acc_s = [show_lit(l) for l, a in accepted.items() if a]
